@@ -99,7 +99,17 @@ func (x *Exec) script(o *Obl, inputs []ModelVar, skipReveal bool) string {
 					asserts = append(asserts, p.S)
 				}
 			}
-			instances = skolemInstances(asserts, sks)
+			var keys []sexprBinder
+			if o.D != nil {
+				all := o.Goal.S + strings.Join(asserts, " ")
+				for name, srt := range o.D.consts {
+					if strings.HasPrefix(name, "|next.key!") && strings.Contains(all, name) {
+						keys = append(keys, sexprBinder{name, srt.String()})
+					}
+				}
+				sort.Slice(keys, func(i, j int) bool { return keys[i].name < keys[j].name })
+			}
+			instances = skolemInstances(asserts, sks, keys)
 		}
 	}
 	var b strings.Builder
